@@ -98,6 +98,9 @@ pub struct GenParams {
     /// then set slot 0: in order only the first caller touches a probe key, speculative attempts
     /// of later transactions touch theirs too (keys no in-order execution reads)
     pub stale_probe: bool,
+    /// give pre-delegated EOAs a balance at / one below / one above / far above the summed
+    /// maximum cost of their own block transactions (reserve-policy boundary cases)
+    pub reserve_shape: bool,
 }
 
 impl Default for GenParams {
@@ -122,6 +125,7 @@ impl Default for GenParams {
             low_gas_pct: 3,
             poor_senders: 0,
             stale_probe: false,
+            reserve_shape: false,
         }
     }
 }
@@ -547,6 +551,26 @@ pub fn generate(p: &GenParams, seed: u64) -> Case {
         txs.push(tx);
     }
 
+    if p.reserve_shape && prague {
+        use revm_context::context_interface::Transaction;
+        for i in 0..p.pre_delegated.min(n_eoa) {
+            let addr = layout.eoa(i);
+            let mut sum = U256::ZERO;
+            for tx in txs.iter().filter(|t| t.caller == addr) {
+                sum = sum.saturating_add(tx.max_balance_spending().unwrap_or(U256::MAX));
+            }
+            let balance = match r.below(5) {
+                0 => sum,
+                1 => sum.saturating_sub(U256::from(1u64)),
+                2 => sum.saturating_add(U256::from(1u64)),
+                3 => sum.saturating_add(U256::from(r.below(5_000_000))),
+                _ => sum.saturating_mul(U256::from(3u64)).saturating_add(U256::from(10_000_000u64)),
+            };
+            if let Some(acc) = accounts.get_mut(&addr) {
+                acc.balance = balance;
+            }
+        }
+    }
     let db = MemDb::new(accounts);
     let disable_nonce_check = r.chance(p.nonce_check_off_pct, 100);
     let hash = case_hash(spec, &db, &block, &txs, disable_nonce_check);
